@@ -106,10 +106,9 @@ func runC12(r *Run) {
 		if !ok {
 			return
 		}
-		// Deliberately NOT demanded: that an invalid predicate fails when the row holds no cell.
-		// Nothing flows into the filter then, and the statement's "invalid predicate" clause is
-		// read with the same tolerance as C05 (a node evaluation never reaches may be validated
-		// eagerly or not at all; the unchanged emulator accepts a bad regex on an absent row).
+		// An invalid predicate fails the request also when the row holds no cell or no cell
+		// reaches the invalid node (the model's CAM step demands it since repair "filters are
+		// validated before a row is looked at").
 		if pred != nil && c12RootInvalid(pred) && obs == nil {
 			r.Probe("c12.invalid_predicate_on_absent_row")
 		}
